@@ -19,13 +19,16 @@ theorem atoiGo_err (s : Str) (h : Relay.atoi s = none) : (atoiGo s).2 = true := 
 
 theorem retriesKey_eq : ascii "_watermill_requeuer_retries" = retriesKey := rfl
 
-theorem extracted_requeuer_eq_model (w : Bool) (tg : TopicGen) (dest : POut) (m : Msg) :
-    rqRun ⟨w, tg, dest⟩ Gen.requeuerBody m = some (requeuer w tg dest m) := by
+/-- for EVERY topic function `pol` (also those that read the retries header of the message they are shown): the
+    extracted handler shows it the message as consumed and publishes to the topic it computed from that -/
+theorem extracted_requeuer_eq_model (w : Bool) (pol : TopicPolicy) (dest : POut) (m : Msg) :
+    rqRun ⟨w, pol, dest⟩ Gen.requeuerBody m = some (requeuerP w pol dest m) := by
+  unfold requeuerP
   cases w with
   | true => simp [rqRun, Gen.requeuerBody, rqExec, rqExec1, requeuer]
   | false =>
-    cases tg with
-    | err => simp [rqRun, Gen.requeuerBody, rqExec, rqExec1, requeuer]
+    cases hp : pol m with
+    | err => simp [rqRun, Gen.requeuerBody, rqExec, rqExec1, requeuer, hp]
     | ok t =>
       have hnext : ∀ (r : Int) (e : Bool), (r, e) = atoiGo ((List.lookup retriesKey m.md).getD []) →
           wrap64 ((if e then 0 else r) + 1) = nextCounter m := by
@@ -45,10 +48,10 @@ theorem extracted_requeuer_eq_model (w : Bool) (tg : TopicGen) (dest : POut) (m 
       cases hd : dest with
       | ok =>
         simp only [rqRun, Gen.requeuerBody, rqExec, rqExec1, requeuer, retriesKey_eq]
-        cases he : (atoiGo ((List.lookup retriesKey m.md).getD [])).2 <;> simp [he] at hn ⊢ <;> simp [hn]
+        cases he : (atoiGo ((List.lookup retriesKey m.md).getD [])).2 <;> simp [he, hp] at hn ⊢ <;> simp [hn]
       | fail x =>
         simp only [rqRun, Gen.requeuerBody, rqExec, rqExec1, requeuer, retriesKey_eq]
-        cases he : (atoiGo ((List.lookup retriesKey m.md).getD [])).2 <;> simp [he] at hn ⊢ <;> simp [hn]
+        cases he : (atoiGo ((List.lookup retriesKey m.md).getD [])).2 <;> simp [he, hp] at hn ⊢ <;> simp [hn]
 
 theorem extracted_unwrap_eq_model (p : Parsed) :
     uwRun Gen.unwrapBody p = some (p.valid.map (fun e => (e.dest, e.msg))) := by
